@@ -162,7 +162,13 @@ func runC11(o Opts) error {
 	probe := genOp(r, 0, 1, false)
 	for i := 0; i < n; i++ {
 		ids := []uint32{genID(r), genID(r), genID(r), 405419896}
+		if i%5 == 4 { // a controller that has no serial number yet (0) is configured, named and answers like any other
+			ids[0] = 0
+		}
 		cfg := genCfg(r, ids)
+		if i%5 == 4 {
+			cfg.Devices = append(cfg.Devices, DevCfg{ID: 0, Name: "unassigned"})
+		}
 		k := r.Intn(13)
 		ds := [][]byte{}
 		nbad := 0
